@@ -701,7 +701,7 @@ pub fn run_c22(ctx: &Ctx, rep: &mut Report) {
         let mut model: BTreeMap<(u16, Vec<u8>), (u64, RName)> = BTreeMap::new();
         let mut log: Vec<String> = Vec::new();
         let mut next_id = 1u64;
-        let n_ops = rng.range(2, 24);
+        let n_ops = if ctx.is_miri() { rng.range(2, 7) } else { rng.range(2, 24) };
         let result = panicmon::catch(|| {
             let mut cat: QCat = QCat::new();
             let mut problems: Vec<(String, String)> = Vec::new();
@@ -784,7 +784,7 @@ pub fn run_c22(ctx: &Ctx, rep: &mut Report) {
     // SingleZoneCatalog: lookup / get against the same rules
     if ctx.only_case.is_none() {
         let mut rng = ctx.rng("c22-single", 0);
-        for _ in 0..200 {
+        for _ in 0..(if ctx.is_miri() { 4 } else { 200 }) {
             let name = rng.pick(&pool).clone();
             let class = *rng.pick(&classes);
             let cat: SingleZoneCatalog<HashMapTreeZone, u64> = SingleZoneCatalog::new(Entry::NotYetLoaded(qname(&name), Class::from(class), 7));
